@@ -51,6 +51,27 @@ fn sane_uri(rng: &mut Rng) -> String {
     }
 }
 
+/// names a job attribute may carry: job-template names, operation / document attribute names a library might be tempted to
+/// special-case, the header attribute names, look-alikes, and arbitrary strings
+pub const JOB_ATTR_NAMES: [&str; 44] = [
+    "copies", "sides", "media", "media-col", "print-quality", "finishings", "x", "y", "z", "copies",
+    "document-format", "document-name", "compression", "document-natural-language", "ipp-attribute-fidelity", "job-name", "requesting-user-name",
+    "job-priority", "job-hold-until", "job-sheets", "multiple-document-handling", "number-up", "orientation-requested", "page-ranges",
+    "printer-resolution", "job-k-octets", "job-impressions", "job-media-sheets", "output-bin", "print-color-mode", "print-scaling",
+    "attributes-charset", "attributes-natural-language", "printer-uri", "job-uri", "job-id", "last-document", "requested-attributes",
+    "limit", "which-jobs", "my-jobs", "Document-Format", "document-format-default", "job-id ",
+];
+
+fn job_attr_name(rng: &mut Rng) -> String {
+    if rng.chance(1, 12) {
+        // an attribute with an empty name has no wire representation (RFC 8010: empty name = additional value): outside the domain
+        let s = gen::gen_string(rng, false);
+        if s.is_empty() { "x".to_string() } else { s }
+    } else {
+        rng.pick(&JOB_ATTR_NAMES).to_string()
+    }
+}
+
 pub fn gen_program(rng: &mut Rng) -> Program {
     let op = rng.below(10) as usize;
     let mut calls = vec![];
@@ -65,12 +86,12 @@ pub fn gen_program(rng: &mut Rng) -> Program {
             0 | 1 => Call::UserName(gen::gen_string(rng, false)),
             2 => Call::JobName(gen::gen_string(rng, false)),
             3 => {
-                let name = rng.pick(&["copies", "sides", "media", "media-col", "print-quality", "x", "copies", "finishings"]).to_string();
+                let name = job_attr_name(rng);
                 Call::Attribute(name, gen::gen_value(rng, &cfg, 2, false))
             }
             4 => {
                 let n = rng.range(0, 3);
-                Call::Attributes((0..n).map(|_| (rng.pick(&["copies", "sides", "media", "y", "z"]).to_string(), gen::gen_value(rng, &cfg, 1, false))).collect())
+                Call::Attributes((0..n).map(|_| (job_attr_name(rng), gen::gen_value(rng, &cfg, 1, false))).collect())
             }
             5 => {
                 if rng.chance(1, 2) {
@@ -399,7 +420,7 @@ pub fn builder_request_bytes(seed: u64, idx: u64) -> Vec<u8> {
 // =================================================================== C10
 
 pub fn run_c10(args: &Args, tier: &str, seed: u64) -> Report {
-    let n: u64 = args.u64("--cases", tier_pick(tier, 6_000, 500_000));
+    let n: u64 = args.u64("--cases", tier_pick(tier, 24_000, 500_000));
     let only = args.get("--only").and_then(|s| s.parse::<u64>().ok());
     let nthreads = if only.is_some() { 1 } else { threads() };
     let parts = par(nthreads, |shard| {
@@ -517,7 +538,7 @@ const EXTRA_VOCAB: [&str; 17] = [
 ];
 
 pub fn run_c09(args: &Args, tier: &str, seed: u64) -> Report {
-    let n: u64 = args.u64("--cases", tier_pick(tier, 1_500, 60_000));
+    let n: u64 = args.u64("--cases", tier_pick(tier, 6_000, 200_000));
     let trials: usize = args.u64("--trials", tier_pick(tier, 32, 256)) as usize;
     let only = args.get("--only").and_then(|s| s.parse::<u64>().ok());
     let nthreads = if only.is_some() { 1 } else { threads() };
@@ -768,6 +789,13 @@ pub fn run_c13(args: &Args, tier: &str, seed: u64) -> Report {
             if rep.samples.len() < 4 && idx % 7919 == 11 {
                 rep.sample(J::obj().with("target", s.as_str()).with("printer_uri", ipp::util::canonicalize_uri(&uri).to_string()));
             }
+            // history independence: look-alike targets canonicalised first, on this thread, must not influence the judged call
+            for nb in uris::neighbours(&p, idx) {
+                if let Ok(u) = nb.parse::<Uri>() {
+                    let _ = catch(|| ipp::util::canonicalize_uri(&u));
+                    rep.count("look_alike_targets_canonicalised_before", 1);
+                }
+            }
             let r = catch(|| {
                 let c = ipp::util::canonicalize_uri(&uri);
                 let again = ipp::util::canonicalize_uri(&c);
@@ -822,7 +850,7 @@ pub fn run_c13(args: &Args, tier: &str, seed: u64) -> Report {
         rep.merge(r);
     }
     rep.extra.insert("grid_size".into(), J::Int(grid.len() as i64));
-    rep.rule = "G5: target URIs assembled from known components: exhaustive grid (4 schemes x 10 hosts (reg-name incl. a trailing-dot FQDN, IPv4, IPv6 literals) x 8 port forms x 8 user-info forms (incl. raw @) x 9 paths x 6 queries) plus seeded random URIs (incl. paths of 1-20 KiB); user-info and query carry TAINT markers. Oracle: components of the canonical printer-uri (own splitter, not http::Uri) vs the inputs: IPP scheme, same host, port iff given (numerically equal), same path (''=='/'), no user-info, no query, no marker anywhere in the printer-uri or in to_bytes() of requests from all 9 URI-taking constructors and the raw constructor; idempotence. Strings http::Uri refuses are counted and skipped. Non-trivial = target carrying user-info or a query.".into();
+    rep.rule = "G5: target URIs assembled from known components: exhaustive grid (4 schemes x 10 hosts (reg-name incl. a trailing-dot FQDN, IPv4, IPv6 literals) x 8 port forms x 8 user-info forms (incl. raw @) x 9 paths x 6 queries) plus seeded random URIs (incl. paths of 1-20 KiB); user-info and query carry TAINT markers. Oracle: components of the canonical printer-uri (own splitter, not http::Uri) vs the inputs: IPP scheme, same host, port iff given (numerically equal), same path (''=='/'), no user-info, no query, no marker anywhere in the printer-uri or in to_bytes() of requests from all 9 URI-taking constructors and the raw constructor; idempotence; each judged call is preceded by two look-alike targets (authority case swapped; other credentials / port / query / scheme / path case) so that a result remembered from an earlier call would show. Strings http::Uri refuses are counted and skipped. Non-trivial = target carrying user-info or a query.".into();
     if only.is_none() {
         rep.require(rep.sets.get("host_forms").map(|s| s.len()).unwrap_or(0) == 3, "reg-name, IPv4 and IPv6 hosts exercised");
         rep.require(rep.evaluations > grid.len() as u64 / 2, "most grid targets accepted by the URI parser");
@@ -870,6 +898,13 @@ pub fn run_c14(args: &Args, tier: &str, seed: u64) -> Report {
             rep.seen("host_forms", if p.host.starts_with('[') { "ipv6" } else if p.host.chars().all(|c| c.is_ascii_digit() || c == '.') { "ipv4" } else { "reg-name" });
             if p.scheme.starts_with("ipp") {
                 rep.nontrivial(hash64(s.as_bytes()));
+            }
+            // history independence: look-alike targets are mapped first, on this thread, and must not influence the judged call
+            for nb in uris::neighbours(&p, idx) {
+                if let Ok(u) = nb.parse::<Uri>() {
+                    let _ = catch(|| ipp::client::verif_transport_url(&u));
+                    rep.count("look_alike_targets_mapped_before", 1);
+                }
             }
             let got = match catch(|| ipp::client::verif_transport_url(&uri)) {
                 Ok(g) => g,
@@ -933,7 +968,7 @@ pub fn run_c14(args: &Args, tier: &str, seed: u64) -> Report {
         rep.merge(r);
     }
     rep.extra.insert("grid_size".into(), J::Int(grid.len() as i64));
-    rep.rule = "G5 grid (as C13) plus seeded random URIs through the cfg-guarded hook verif_transport_url (the private mapping the clients use). Oracle: component-wise comparison (own splitter): ipp->http, ipps->https, port 631 when absent, explicit port kept (numerically), host / user-info / path (''=='/') / query unchanged, http/https targets unchanged. Non-trivial = ipp/ipps target.".into();
+    rep.rule = "G5 grid (as C13) plus seeded random URIs through the cfg-guarded hook verif_transport_url (the private mapping the clients use). Oracle: component-wise comparison (own splitter): ipp->http, ipps->https, port 631 when absent, explicit port kept (numerically), host / user-info / path (''=='/') / query unchanged, http/https targets unchanged; each judged call is preceded by two look-alike targets (authority case swapped; other credentials / port / query / scheme / path case) so that a mapping remembered from an earlier call would show. Non-trivial = ipp/ipps target.".into();
     if only.is_none() {
         rep.require(rep.sets.get("schemes").map(|s| s.len()).unwrap_or(0) == 4, "all four schemes exercised");
     }
